@@ -984,6 +984,11 @@ func (rl *Shell) viYankTo() {
 func (rl *Shell) viYankWholeLine() {
 	rl.History.SkipSave()
 
+	// There is no line to select in an empty buffer.
+	if rl.line.Len() == 0 {
+		return
+	}
+
 	// calculate line selection.
 	rl.selection.Mark(rl.cursor.Pos())
 	rl.selection.Visual(true)
@@ -991,7 +996,7 @@ func (rl *Shell) viYankWholeLine() {
 	bpos, epos := rl.selection.Pos()
 
 	// If selection has a new line, remove it.
-	if (*rl.line)[epos-1] == '\n' {
+	if epos > 0 && (*rl.line)[epos-1] == '\n' {
 		epos--
 	}
 
